@@ -1,8 +1,10 @@
 """C20 - a powertrain is exactly the drive chain reachable from its motor.
 
-* C20.walk     Powertrain.__init__ builds the element sequence by starting at the motor and appending
-               `last.drives` until it is None - nothing else can end or alter the walk; stored as a tuple
-* C20.rejects  a motor that drives nothing -> ValueError; duplicate names -> NameError; both before the stores
+* C20.walk     Powertrain.__init__ evaluated abstractly on every concrete chain of 2..5 elements (spur gears,
+               self-locking / reversible worm gears, with and without driven_by back-links): the stored value is a
+               tuple of exactly the drives-chain, in order
+* C20.rejects  on concrete inputs: a motor that drives nothing -> ValueError; a non-motor -> TypeError; every pattern
+               of equal names (adjacent or not, 74 patterns) -> NameError before any store, distinct names accepted
 * C20.locking  self_locking starts False and becomes True iff some element is a WormGear whose self_locking is
                true (scan over all elements, no other assignment)
 * C20.frozen   `elements` and `self_locking` are read-only properties returning the private fields unchanged; the
@@ -18,103 +20,125 @@ from sa.srcmodel import strip_docstring, walk_no_nested
 from sa.sx import SX, State, Ov, Seq, Bv, CannotDecide, guards_at
 
 
-def _is_last_drives(node, lst):
-    """<lst>[-1].drives"""
-    return (isinstance(node, ast.Attribute) and node.attr == 'drives' and isinstance(node.value, ast.Subscript)
-            and isinstance(node.value.value, ast.Name) and node.value.value.id == lst
-            and ast.unparse(node.value.slice) == '-1')
 
 
-def check_walk(model, rep, m):
-    body = strip_docstring(m.node.body)
-    motor = m.node.args.args[1].arg
-    whiles = [s for s in body if isinstance(s, ast.While)]
-    fors_recursive = None
-    if len(whiles) != 1:
-        rep.cannot('C20.walk', 'Powertrain.__init__', f'{len(whiles)} while loops; the chain walk was not recognised', m.loc)
-        return None
-    w = whiles[0]
-    wi = body.index(w)
-    ok, why = True, ''
-    lst = None
-    t = w.test
-    # idiom A: while L[-1].drives is not None: L.append(L[-1].drives)
-    if isinstance(t, ast.Compare) and len(t.ops) == 1 and isinstance(t.ops[0], ast.IsNot) \
-            and isinstance(t.comparators[0], ast.Constant) and t.comparators[0].value is None \
-            and isinstance(t.left, ast.Attribute) and t.left.attr == 'drives' and isinstance(t.left.value, ast.Subscript) \
-            and isinstance(t.left.value.value, ast.Name):
-        lst = t.left.value.value.id
-        if not _is_last_drives(t.left, lst):
-            ok, why = False, f'the walk tests `{ast.unparse(t)}`, not the last element\'s drives'
-        if w.orelse:
-            ok, why = False, 'while/else in the chain walk'
-        if len(w.body) != 1:
-            ok, why = False, (f'the walk body has {len(w.body)} statements: something other than appending `last.drives` can stop '
-                              f'or alter the walk (`{ast.unparse(w.body[0])[:70]}` ...)')
-        else:
-            b = w.body[0]
-            if not (isinstance(b, ast.Expr) and isinstance(b.value, ast.Call) and isinstance(b.value.func, ast.Attribute)
-                    and b.value.func.attr == 'append' and isinstance(b.value.func.value, ast.Name)
-                    and b.value.func.value.id == lst and len(b.value.args) == 1 and _is_last_drives(b.value.args[0], lst)):
-                ok, why = False, f'the walk step is `{ast.unparse(b)[:80]}`, specified {lst}.append({lst}[-1].drives)'
-        # initialisation [motor]
-        inits = [s for s in body[:wi] if isinstance(s, ast.Assign) and any(isinstance(x, ast.Name) and x.id == lst for x in s.targets)]
-        if not inits or ast.unparse(inits[-1].value) != f'[{motor}]':
-            ok, why = False, f'the walk does not start from the motor alone (`{ast.unparse(inits[-1].value) if inits else None}`)'
-        # nothing between the walk and the store may modify the list
-        for s in body[wi + 1:]:
-            for n in ast.walk(s):
-                if isinstance(n, ast.Call) and isinstance(n.func, ast.Attribute) and isinstance(n.func.value, ast.Name) \
-                        and n.func.value.id == lst and n.func.attr in ('append', 'pop', 'remove', 'insert', 'reverse', 'sort', 'clear', 'extend'):
-                    ok, why = False, f'the element list is modified after the walk ({ast.unparse(n)[:60]})'
-                if isinstance(n, (ast.Assign, ast.AugAssign)) and any(isinstance(x, ast.Name) and x.id == lst
-                                                                      for x in ([n.target] if isinstance(n, ast.AugAssign) else n.targets)):
-                    ok, why = False, 'the element list is rebound after the walk'
-    else:
-        rep.cannot('C20.walk', 'Powertrain.__init__', f'chain walk `while {ast.unparse(t)[:60]}` is outside the recognised idiom', m.loc)
-        return None
-    rep.decide(ok, 'C20.walk', 'Powertrain.__init__:chain-walk', why, loc=f'{m.module}:{w.lineno}')
-    # stored as a tuple of exactly that list
-    stores = [s for s in body if isinstance(s, ast.Assign) and any(isinstance(x, ast.Attribute) and x.attr == '__elements' for x in s.targets)]
-    oks = len(stores) == 1 and ast.unparse(stores[0].value) == f'tuple({lst})'
-    rep.decide(oks, 'C20.walk', 'Powertrain.__init__:stored-tuple',
-               f'elements stored as `{ast.unparse(stores[0].value) if stores else None}`, specified tuple({lst})',
-               loc=f'{m.module}:{stores[0].lineno if stores else m.node.lineno}')
-    return lst, (stores[0] if stores else None)
 
 
-def check_rejects(model, rep, m, store):
-    body = strip_docstring(m.node.body)
-    motor = m.node.args.args[1].arg
-    first_store = min([s.lineno for s in ast.walk(m.node) if isinstance(s, ast.Attribute) and isinstance(s.ctx, ast.Store)
-                       and isinstance(s.value, ast.Name) and s.value.id == 'self'] or [10 ** 9])
-    found = {'no-drive': None, 'duplicate': None, 'type': None}
-    for s in ast.walk(m.node):
-        if isinstance(s, ast.If):
-            raises = [r for r in s.body if isinstance(r, ast.Raise)]
-            if not raises:
-                continue
-            exc = ast.unparse(raises[0].exc.func) if isinstance(raises[0].exc, ast.Call) else ''
-            test = ast.unparse(s.test)
-            if exc == 'ValueError' and test == f'{motor}.drives is None':
-                found['no-drive'] = s
-            if exc == 'NameError' and ('> 1' in test or '>= 2' in test):
-                found['duplicate'] = s
-            if exc == 'TypeError' and 'isinstance' in test and 'MotorBase' in test:
-                found['type'] = s
-    rep.decide(found['no-drive'] is not None and found['no-drive'].lineno < first_store, 'C20.rejects',
-               'Powertrain.__init__[motor drives nothing]', 'a motor connected to nothing is not rejected with ValueError before the '
-               'powertrain is assembled', loc=m.loc)
-    d = found['duplicate']
-    okd = d is not None and d.lineno < first_store
-    if okd:
-        # the count must come from the names of the walked elements
-        src = ast.unparse(m.node)
-        okd = 'Counter' in src and '.name' in src
-    rep.decide(okd, 'C20.rejects', 'Powertrain.__init__[duplicate names]',
-               'two elements sharing a name are not rejected with NameError before the powertrain is assembled', loc=m.loc)
-    rep.decide(found['type'] is not None and found['type'].lineno < first_store, 'C20.rejects',
-               'Powertrain.__init__[motor type]', 'a non-motor argument is not rejected with TypeError', loc=m.loc)
+def _partitions(n):
+    """all assignments of names to n positions up to renaming (restricted growth strings)"""
+    def rec(prefix, mx):
+        if len(prefix) == n:
+            yield tuple(prefix)
+            return
+        for k in range(mx + 2):
+            yield from rec(prefix + [k], max(mx, k))
+    yield from rec([0], 0)
+
+
+
+
+
+
+def concrete_init(model, m, classes, names=None, flags=None, backlinks=True):
+    """Powertrain.__init__ evaluated on one concrete chain: classes[0] is passed as `motor`, element i drives
+    element i+1, the last drives nothing.  -> (sx, outcomes, element objects)"""
+    from sa import sx as sxm
+    from sa.sx import SX, Sv, NoneV
+    sx = SX(model)
+    sx.eval_comprehensions = True
+    sxm.POSITIVE_ATOMS.clear()
+    st = sxm.State(env={})
+    els = [Ov(f'el{i}', c, True) for i, c in enumerate(classes)]
+    for i, o in enumerate(els):
+        st.heap[(o.path, 'name')] = Sv(names[i] if names else f'name{i}')
+        st.heap[(o.path, 'drives')] = els[i + 1] if i + 1 < len(els) else NoneV()
+        st.heap[(o.path, 'driven_by')] = (els[i - 1] if i > 0 else NoneV()) if backlinks else NoneV()
+        if flags and flags[i] is not None:
+            st.heap[(o.path, 'self_locking')] = Bv(flags[i])
+    outs = sx.run(m.node, m.module, 'Powertrain', Ov('self', 'Powertrain', True), {m.node.args.args[1].arg: els[0]}, st)
+    return sx, outs, els
+
+
+def check_concrete(model, rep, m):
+    """the constructor evaluated on every chain of 2..5 elements made of spur gears, self-locking and reversible worm
+    gears (120 chains, with and without consistent driven_by back-links): the stored tuple is the chain in order and the
+    frozen flag is `some worm gear is flagged self-locking`; a motor driving nothing and a non-motor are rejected"""
+    import itertools
+    from sa.sx import Tv
+    walk_bad = tuple_bad = flag_bad = None
+    n_cfg = 0
+    try:
+        for n in range(2, 6):
+            for combo in itertools.product(('S', 'WT', 'WF'), repeat=n - 1):
+                for backlinks in ((True, False) if n <= 4 else (True,)):
+                    n_cfg += 1
+                    classes = ['DCMotor'] + ['SpurGear' if c == 'S' else 'WormGear' for c in combo]
+                    flags = [None] + [None if c == 'S' else c == 'WT' for c in combo]
+                    sx, outs, els = concrete_init(model, m, classes, flags=flags, backlinks=backlinks)
+                    tag = 'motor -> ' + ' -> '.join({'S': 'spur', 'WT': 'worm(self-locking)', 'WF': 'worm'}[c] for c in combo) + \
+                          ('' if backlinks else ' (driven_by links not set)')
+                    done = [o for o in outs if o.kind in ('fall', 'return')]
+                    if len(done) != 1 or len(outs) != 1:
+                        walk_bad = walk_bad or f'the chain {tag} is not assembled: {[(o.kind, o.value) for o in outs if o.kind == "raise"][:1] or len(done)} '
+                        continue
+                    effs = done[0].state.effects
+                    st_el = [e for e in effs if e[0] == 'store' and e[1] == 'self' and e[2].endswith('__elements')]
+                    st_fl = [e for e in effs if e[0] == 'store' and e[1] == 'self' and e[2].endswith('__self_locking')]
+                    if not st_el or not isinstance(st_el[-1][3], Tv):
+                        walk_bad = walk_bad or f'for the chain {tag} the elements are stored as `{sx.show(st_el[-1][3])[:60] if st_el else None}`'
+                        continue
+                    got = [getattr(i, 'path', '?') for i in st_el[-1][3].items]
+                    if got != [e.path for e in els]:
+                        walk_bad = walk_bad or (f'for the chain {tag} the stored elements are positions '
+                                                f'{[g.replace("el", "") for g in got]} of the chain, specified every element once, in order')
+                    if st_el[-1][3].kind != 'tuple':
+                        tuple_bad = tuple_bad or f'the elements are stored as a {st_el[-1][3].kind}, specified an immutable tuple'
+                    want = any(c == 'WT' for c in combo)
+                    val = st_fl[-1][3] if st_fl else None
+                    if not (isinstance(val, Bv) and val.b is want):
+                        flag_bad = flag_bad or (f'for the chain {tag} the frozen self-locking flag is `{sx.show(val)[:40] if val is not None else None}`, '
+                                                f'specified {want}')
+        # rejections
+        sx, outs, _ = concrete_init(model, m, ['DCMotor'])
+        ok_nd = bool(outs) and all(o.kind == 'raise' and o.value == 'ValueError' for o in outs)
+        sx, outs, _ = concrete_init(model, m, ['SpurGear', 'SpurGear'])
+        ok_ty = bool(outs) and all(o.kind == 'raise' and o.value == 'TypeError' for o in outs)
+    except CannotDecide as e:
+        rep.cannot('C20.walk', 'Powertrain.__init__', str(e), m.loc)
+        return
+    rep.inspect(n_cfg)
+    d = f'{n_cfg} concrete chains'
+    rep.decide(walk_bad is None, 'C20.walk', 'Powertrain.__init__:chain-walk', walk_bad or '', loc=m.loc, detail=d)
+    rep.decide(tuple_bad is None, 'C20.walk', 'Powertrain.__init__:stored-tuple', tuple_bad or '', loc=m.loc, detail=d)
+    rep.decide(flag_bad is None, 'C20.locking', 'Powertrain.__init__:flag-value', flag_bad or '', loc=m.loc, detail=d)
+    rep.decide(ok_nd, 'C20.rejects', 'Powertrain.__init__[motor drives nothing]', 'a motor connected to nothing is not rejected with '
+               'ValueError before the powertrain is assembled', loc=m.loc)
+    rep.decide(ok_ty, 'C20.rejects', 'Powertrain.__init__[motor type]', 'a non-motor argument is not rejected with TypeError', loc=m.loc)
+    # duplicate names, wherever they sit
+    bad = None
+    n_pat = 0
+    try:
+        for n in range(2, 6):
+            for pat in _partitions(n):
+                n_pat += 1
+                sx, outs, _ = concrete_init(model, m, ['DCMotor'] + ['SpurGear'] * (n - 1), names=[f'name{k}' for k in pat])
+                dup = len(set(pat)) < n
+                for o in outs:
+                    raised = o.kind == 'raise'
+                    if dup and not (raised and o.value == 'NameError'):
+                        bad = bad or (f'a chain whose elements are named {["name%d" % k for k in pat]} is '
+                                      f'{"rejected with " + str(o.value) if raised else "accepted"}; NameError is specified whenever two '
+                                      f'elements share a name (adjacent or not)')
+                    if not dup and raised:
+                        bad = bad or f'a chain of {n} distinctly named elements is rejected with {o.value}'
+                    if dup and raised and any(e[0] == 'store' and e[1] == 'self' for e in o.state.effects):
+                        bad = bad or 'the duplicate is reported after the powertrain has been (partly) assembled'
+    except CannotDecide as e:
+        rep.cannot('C20.rejects', 'Powertrain.__init__[duplicate names]', str(e), m.loc)
+        return
+    rep.inspect(n_pat)
+    rep.decide(bad is None, 'C20.rejects', 'Powertrain.__init__[duplicate names]', bad or '', loc=m.loc,
+               detail=f'{n_pat} name patterns on chains of 2..5 elements')
 
 
 def _elements_iter(node):
@@ -278,19 +302,19 @@ def check_frozen(model, rep):
 
 
 def check(model, rep):
-    rep.explain('C20: Powertrain.__init__ is matched against the chain-walk idiom (start [motor]; while last.drives is not None: '
-                'append last.drives; nothing else in the loop, list untouched afterwards, stored as tuple); the two rejections '
-                'precede every store; the self-locking scan (tail of __init__ evaluated symbolically over the abstract element '
+    rep.explain('C20: Powertrain.__init__ is evaluated abstractly on every concrete chain of 2..5 elements (spur gears, self-locking and '
+                'reversible worm gears, with and without driven_by back-links) and every pattern of equal/distinct names: the stored '
+                'tuple is the drives-chain in order, the frozen flag is the disjunction over the worm gears, duplicates / a motor driving '
+                'nothing / a non-motor raise before any store; the self-locking scan (tail of __init__ evaluated symbolically over the abstract element '
                 'tuple) starts False, visits all elements and assigns True exactly under isinstance(WormGear) and self_locking; '
                 'both public attributes are setter-less properties returning the private field, with no other writer in the package.')
     m = model.member('Powertrain', '__init__')
     rep.inspect(len(list(ast.walk(m.node))))
-    r = check_walk(model, rep, m)
-    check_rejects(model, rep, m, r[1] if r else None)
+    check_concrete(model, rep, m)
     check_locking(model, rep, m)
     check_frozen(model, rep)
     rep.require('C20.walk', 2)
     rep.require('C20.rejects', 3)
-    rep.require('C20.locking', 3)
+    rep.require('C20.locking', 4)
     rep.require('C20.frozen', 6)
     rep.assume('drives links are those written by the relation functions (C10)')
